@@ -127,6 +127,7 @@ def shard(s, ns, tier, seed):
     if s == 0:
         with core.quiet_stdout():
             bracket_forms(part, asm)
+            att_constant_forms(part, asm_att)
     return part
 
 
@@ -165,6 +166,32 @@ def att_rewrites(text):
         # both operand orders of xchg/test denote the same instruction (and GNU as encodes them identically)
         out.append(('att-operand-order', mn + gap + parts[1].strip() + ',' + parts[0].strip()))
     return out
+
+
+ATT_CONST_PAIRS = [('$(a-b)-4', '$a-b-4'), ('$(a-b)+4', '$a-b+4'), ('$(a-b)-1', '$a-b-1'), ('$(a-b)-100', '$a-b-100'), ('$(a-b)', '$a-b'),
+                   ('$8-4', '$4'), ('$(8-4)', '$4'), ('$4+4', '$8'), ('$16-8-4', '$4'), ('$-4+8', '$4'), ('$a+4', '$4+a'), ('$a-4', '$-4+a')]
+
+
+def att_constant_forms(part, asm_att):
+    """AT&T constant expressions (symbol differences, parentheses, sums): two spellings of one constant"""
+    for e1, e2 in ATT_CONST_PAIRS:
+        for tmpl in ('movl %s, %%eax', 'pushl %s', 'addl %s, %%ecx', 'leal %s(%%eax,%%ebx,2), %%ecx', 'movl %s(%%ebx), %%eax'):
+            x1, x2 = (e1, e2) if '(%' not in tmpl else (e1.lstrip('$'), e2.lstrip('$'))
+            l1, l2 = tmpl % x1, tmpl % x2
+            base = cand_set(asm_att, l2)
+            if isinstance(base, str) or not base:
+                part.skip('not accepted by asm_att')
+                continue
+            got = cand_set(asm_att, l1)
+            part.n += 1
+            if got == base:
+                part.keys.add(core.h64((l1, l2)))
+                part.outcomes.add(core.h64('att-constant'))
+            else:
+                how = got if isinstance(got, str) else ('rejected' if not got else 'differs')
+                part.violation('rewrite=att-constant-expression form=%s how=%s' % (e1.replace('a', 'sym').replace('b', 'sym'), how),
+                               'asm_att(%r) = %s but asm_att(%r) = %s' % (l2, describe(base), l1, describe(got)),
+                               {'l1': l2, 'l2': l1, 'e1': 'asm_att', 'e2': 'asm_att'}, size=len(l1))
 
 
 BRACKET_ADDR = ['ebx', 'ebx+esi*2', 'eax*4', 'esp', 'ebp+edi']
